@@ -249,7 +249,7 @@ def _no_children_under_fields(nodes):
 def run(tier, seed):
     rng = random.Random(seed)
     quick = tier == 'quick'
-    nr, rows = (250, 5) if quick else (4000, 8)
+    nr, rows = (400, 5) if quick else (4000, 8)
     c1 = Clause('callback-positions', 'B',
                 '%d curated markup abbreviations (snippets, multi-line text, explicit fields, unicode) + %d random trees per markup syntax %r; '
                 '%d curated stylesheet abbreviations + random sums per stylesheet syntax %r; options random over %s; wrap text from %r; '
@@ -269,7 +269,7 @@ def run(tier, seed):
     run_parallel_sorted(c2, 'bounded.c13', 'check_positions', multiline_cases(rng, rows), chunk=50)
     c2.done()
 
-    nt = 40000 if quick else 600000
+    nt = 80000 if quick else 600000
     c3 = Clause('tabstops-auto', 'B',
                 'seeded random trees without explicit fields (elements with empty / non-empty attributes, text, void elements, repeaters)',
                 '%d trees, depth <= 4, width <= 3, syntaxes %r, random options' % (nt, TAG_SYNTAXES),
